@@ -9,32 +9,35 @@ import time
 from . import paths
 
 ALLOWED_AXIOMS = {'propext', 'Quot.sound', 'Classical.choice'}      # Lean's standard axioms; sorryAx or anything else is a failure
-THEOREMS = ('Sourcer.a_meta', 'Sourcer.a_meta_expr')
+FILES = {'Compose.lean': ('Sourcer.a_meta', 'Sourcer.a_meta_expr'),
+         'Segments.lean': ('Sourcer.segments_sound', 'Sourcer.construct_sound')}
 
 
 def check_meta(timeout=300):
     """-> {'status': 'checked' | 'unavailable' | 'failed', ...}"""
-    src = os.path.join(paths.VERIF, 'meta', 'Compose.lean')
     lean = shutil.which('lean')
     if lean is None:
         return {'status': 'unavailable', 'reason': 'lean is not on PATH'}
+    res = {'status': 'checked', 'files': sorted('meta/' + f for f in FILES), 'back_end': 'lean 4 (kernel)', 'time_s': 0.0, 'axioms': {}}
     t0 = time.time()
-    try:
-        p = subprocess.run([lean, src], capture_output=True, text=True, timeout=timeout, cwd='/')
-    except subprocess.TimeoutExpired:
-        return {'status': 'failed', 'reason': f'lean did not finish within {timeout} s'}
-    out = p.stdout + p.stderr
-    res = {'status': 'checked', 'file': 'meta/Compose.lean', 'back_end': 'lean 4 (kernel)', 'time_s': round(time.time() - t0, 2), 'axioms': {}}
-    if p.returncode != 0 or 'error' in out or 'sorry' in out:
-        return dict(res, status='failed', reason=out[-1500:])
-    for t in THEOREMS:
-        m = re.search(rf"'{re.escape(t)}' (does not depend on any axioms|depends on axioms: \[([^\]]*)\])", out)
-        if not m:
-            return dict(res, status='failed', reason=f'no axiom report for {t}: {out[-600:]}')
-        ax = [a.strip() for a in (m.group(2) or '').split(',') if a.strip()]
-        res['axioms'][t] = ax
-        if not set(ax) <= ALLOWED_AXIOMS:
-            return dict(res, status='failed', reason=f'{t} depends on {ax}')
+    for fname, theorems in FILES.items():
+        src = os.path.join(paths.VERIF, 'meta', fname)
+        try:
+            p = subprocess.run([lean, src], capture_output=True, text=True, timeout=timeout, cwd='/')
+        except subprocess.TimeoutExpired:
+            return dict(res, status='failed', reason=f'lean did not finish {fname} within {timeout} s')
+        out = p.stdout + p.stderr
+        if p.returncode != 0 or 'error' in out or 'sorry' in out:
+            return dict(res, status='failed', reason=f'{fname}: {out[-1500:]}')
+        for t in theorems:
+            m = re.search(rf"'{re.escape(t)}' (does not depend on any axioms|depends on axioms: \[([^\]]*)\])", out)
+            if not m:
+                return dict(res, status='failed', reason=f'no axiom report for {t}: {out[-600:]}')
+            ax = [a.strip() for a in (m.group(2) or '').split(',') if a.strip()]
+            res['axioms'][t] = ax
+            if not set(ax) <= ALLOWED_AXIOMS:
+                return dict(res, status='failed', reason=f'{t} depends on {ax}')
+    res['time_s'] = round(time.time() - t0, 2)
     return res
 
 
